@@ -107,18 +107,21 @@ let model_op (cf : cfg) (st : mstate) (op : string) : string =
          else if cancel = "b" then Some O
          else Some (nat_of_int (int_of_string (String.sub cancel 1 (String.length cancel - 1)))) in
        (* a cancellation inside the k-th Write becomes visible after the register being read: same number *)
-       let ((e, delivered), s') = stream_register_list cf h rl ca st.vd in
-       st.vd <- s';
-       let endtok = match e with
+       let endtok_of e = match e with
          | SDone -> "ok" | SError er -> err_class er | SCancelled -> "Ectxdone" | SPanic -> "P" | SFuel -> "F" in
-       let items = List.map (fun (r, v) -> name_of r ^ "=" ^ value_token v) delivered in
-       if variant = "s" then "S" ^ endtok ^ "|" ^ String.concat "~" items
-       else begin
-         (* map semantics: the last value delivered under a name wins *)
-         let tbl = Hashtbl.create 64 in
-         List.iter (fun (r, v) -> Hashtbl.replace tbl (name_of r) (value_token v)) delivered;
-         let l = Hashtbl.fold (fun k v acc -> (k ^ "=" ^ v) :: acc) tbl [] in
-         "M" ^ endtok ^ "|" ^ String.concat "~" (List.sort compare l) ^ "|1"
+       if variant = "s" then begin
+         let ((e, delivered), s') = stream_register_list cf h rl ca st.vd in
+         st.vd <- s';
+         let items = List.map (fun (r, v) -> name_of r ^ "=" ^ value_token v) delivered in
+         "S" ^ endtok_of e ^ "|" ^ String.concat "~" items
+       end else begin
+         (* the map variant is the Coq model read_register_list (Api/Maps.v): four
+            association maps with Go's m[k] = v semantics; iteration order is not observable *)
+         let ((e, m), s') = read_register_list cf rl ca st.vd in
+         st.vd <- s';
+         let l = List.concat_map (fun k -> List.map (fun (n, v) -> ostring_of_coq n ^ "=" ^ value_token v) (rv_map k m))
+             [KNum; KText; KEnum; KFields] in
+         "M" ^ endtok_of e ^ "|" ^ String.concat "~" (List.sort compare l) ^ "|1"
        end)
   | _ -> "BADOP"
 
@@ -242,7 +245,9 @@ let judge (c : scase) (ops : string list) (impl_results : string list) (written 
                 ((if hm land 1 <> 0 then rl.l_numbers else []) @ (if hm land 2 <> 0 then rl.l_texts else []) @
                  (if hm land 4 <> 0 then rl.l_enums else []) @ (if hm land 8 <> 0 then rl.l_fieldlists else [])) in
             (* independent expectation computed by the generator: delivered count and end *)
-            (match (try Some (int_of_string (List.assoc "expect_n" c.tags)) with Not_found -> None), String.split_on_char '|' impl with
+            let tagi name = (try Some (List.assoc (name ^ string_of_int i) c.tags) with Not_found ->
+                if i = 1 then (try Some (List.assoc name c.tags) with Not_found -> None) else None) in
+            (match (match tagi "expect_n" with Some v -> Some (int_of_string v) | None -> None), String.split_on_char '|' impl with
              | Some en, e :: items :: _ ->
                let got = if items = "" then [] else List.map (fun x -> List.hd (String.split_on_char '=' x)) (String.split_on_char '~' items) in
                let rec take n l = if n <= 0 then [] else match l with [] -> [] | x :: r -> x :: take (n - 1) r in
@@ -252,7 +257,7 @@ let judge (c : scase) (ops : string list) (impl_results : string list) (written 
                if got <> want then
                  report "C10" c.id (Printf.sprintf "%d values delivered/held, expected exactly the first %d registers of the plan" (List.length got) en);
                let ende = String.sub e 1 (String.length e - 1) in
-               let ee = (try List.assoc "expect_end" c.tags with Not_found -> "") in
+               let ee = (match tagi "expect_end" with Some v -> v | None -> "") in
                if (ee = "ok" && ende <> "ok") || (ee = "Ectxdone" && ende <> "Ectxdone") ||
                   (ee = "ERR" && (ende = "ok" || ende = "Ectxdone")) then
                  report "C10" c.id (Printf.sprintf "run ended with %s, expected %s" ende ee)
